@@ -274,13 +274,12 @@ Proof.
     { pose proof (wf_terms m W e Ho) as Hw. apply wf_term_iff in Hw as (_ & _ & Hok & _).
       rewrite K in Hok. exact Hok. }
     assert (HA : forall u, L e u <-> l_loop (L x) xr u) by (intros u; apply (L_rnode e _ u K)).
-    destruct (lr_rmie xr range) as [[|]|] eqn:R; cbn [bind] in H; try discriminate.
-    + destruct (lr_mul xr range) as [r|] eqn:M; cbn [bind] in H; try discriminate.
-      destruct (cp_mul_exact xr range r Hxr Hr R M) as [Hv Hl].
-      apply loop_node_ok in H; try tauto. eapply post_weaken; [exact H|].
-      eapply lang_eq_trans; [apply lang_eq_of_equiv; intros w; apply Hl|].
-      apply lang_eq_loop. apply lang_eq_of_equiv. intros u. symmetry. apply HA.
-    + apply loop_node_ok; assumption.
+    destruct (lr_rmie xr range) as [[|]|] eqn:R; try (apply loop_node_ok; assumption).
+    destruct (lr_mul xr range) as [r|] eqn:M; try (apply loop_node_ok; assumption).
+    destruct (cp_mul_exact xr range r Hxr Hr R M) as [Hv Hl].
+    apply loop_node_ok in H; try tauto. eapply post_weaken; [exact H|].
+    eapply lang_eq_trans; [apply lang_eq_of_equiv; intros w; apply Hl|].
+    apply lang_eq_loop. apply lang_eq_of_equiv. intros u. symmetry. apply HA.
 Qed.
 
 Theorem mk_loop_wf m e range m' t :
@@ -292,23 +291,30 @@ Theorem mk_loop_lang m e range m' t :
   lang_eq (L t) (fun w => exists n, in_lr n range /\ l_pow (L e) n w).
 Proof. intros W Ho Hr H. destruct (mk_loop_ok m e range m' t W Ho Hr H) as (?&?&?&?). auto. Qed.
 
-(* mk_loop panics only when the exactness test or the product of a loop of loop overflows *)
-Theorem mk_loop_none m e range :
-  wf m -> mk_loop m e range = None ->
-  exists x xr, rnode e = NLoop x xr /\
-    (lr_rmie xr range = None \/ (lr_rmie xr range = Some true /\ lr_mul xr range = None)).
+(* D11 repaired: mk_loop never panics (for any range, from any manager): the loop-of-loop
+   flattening is guarded by the checked exactness test and the checked product. *)
+Lemma make_nc_total m k : not_compl k -> exists m' t, make m k = Some (m', t).
 Proof.
-  intros W H. unfold mk_loop in H.
-  destruct (lr_is_zero range); [discriminate|]. destruct (lr_is_one range); [discriminate|].
-  assert (Hmk : forall k, not_compl k -> make m k <> None).
-  { intros k Hk E. destruct (make_total m k W Hk) as (m' & t & E'). congruence. }
-  destruct (rnode e) as [| |s|a b|x xr|a|l|l] eqn:K; try discriminate;
-    try (exfalso; apply (Hmk (NLoop e range) I H)).
-  exists x, xr. split; auto.
-  destruct (lr_rmie xr range) as [[|]|]; cbn [bind] in H; auto.
-  - destruct (lr_mul xr range) as [r|]; cbn [bind] in H; auto. exfalso; apply (Hmk (NLoop x r) I H).
-  - exfalso; apply (Hmk (NLoop e range) I H).
+  intros Hk. rewrite (make_unfold m k Hk). cbv zeta.
+  destruct (store_make m k) as [m1 x]. destruct (rid x =? counter m).
+  - destruct (store_make m1 (NCompl x)) as [m2 y]. eexists; eexists; reflexivity.
+  - eexists; eexists; reflexivity.
 Qed.
+Theorem mk_loop_total_any m e range : exists m' t, mk_loop m e range = Some (m', t).
+Proof.
+  unfold mk_loop.
+  destruct (lr_is_zero range); [eexists; eexists; reflexivity|].
+  destruct (lr_is_one range); [eexists; eexists; reflexivity|].
+  destruct (rnode e) as [| |s|a b|x xr|a|l|l]; try (eexists; eexists; reflexivity);
+    try (apply make_nc_total; exact I).
+  destruct (lr_rmie xr range) as [[|]|]; try (apply make_nc_total; exact I).
+  destruct (lr_mul xr range) as [r|]; apply make_nc_total; exact I.
+Qed.
+Theorem mk_loop_total m e range :
+  wf m -> owned m e -> lr_valid range -> exists m' t, mk_loop m e range = Some (m', t).
+Proof. intros _ _ _. apply mk_loop_total_any. Qed.
+Theorem mk_loop_none m e range : mk_loop m e range <> None.
+Proof. destruct (mk_loop_total_any m e range) as (m' & t & E). congruence. Qed.
 
 Lemma in_lr_bounds n lo hi : in_lr n (LR lo hi) <-> in_bounds n lo hi.
 Proof. unfold in_lr, inr, in_bounds. destruct hi; tauto. Qed.
@@ -370,16 +376,26 @@ Definition rule7 (e1 e2 : re) : option (re * lr * lr) :=
   | Some (x, xr), Some (y, yr) => if re_eqb x y then Some (x, xr, yr) else None
   | _, _ => None
   end.
+(* the guarded rules (D11 repaired): rule 5/6 fire only if the successor range fits in u32,
+   rule 7 only if the sum of the two ranges does; they yield the range of the merged loop *)
+Definition rule5g (e1 e2 : re) : option lr :=
+  match loop_of e2 with Some (y, rng) => if re_eqb e1 y then lr_add_point rng 1 else None | None => None end.
+Definition rule7g (e1 e2 : re) : option (re * lr) :=
+  match loop_of e1, loop_of e2 with
+  | Some (x, xr), Some (y, yr) =>
+      if re_eqb x y then (match lr_add xr yr with Some r => Some (x, r) | None => None end) else None
+  | _, _ => None
+  end.
 (* rules 5-10 of ReManager::concat, in source order *)
 Definition concat_rules (e1 : re) (m : mgr) (e2 : re) : option (mgr * re) :=
-  match rule5 e1 e2 with
-  | Some rng => do r <- lr_add_point rng 1; (make m (NLoop e1 r))
+  match rule5g e1 e2 with
+  | Some r => make m (NLoop e1 r)
   | None =>
-    match rule5 e2 e1 with
-    | Some rng => do r <- lr_add_point rng 1; (make m (NLoop e2 r))
+    match rule5g e2 e1 with
+    | Some r => make m (NLoop e2 r)
     | None =>
-      match rule7 e1 e2 with
-      | Some (x, xr, yr) => do r <- lr_add xr yr; (make m (NLoop x r))
+      match rule7g e1 e2 with
+      | Some (x, r) => make m (NLoop x r)
       | None =>
         if re_eqb e1 e2 then (make m (NLoop e1 (lr_point 2)))
         else match rnode e1 with
@@ -390,6 +406,34 @@ Definition concat_rules (e1 : re) (m : mgr) (e2 : re) : option (mgr * re) :=
       end
     end
   end.
+
+Lemma rule5g_some e1 e2 r : rule5g e1 e2 = Some r ->
+  exists rng, rule5 e1 e2 = Some rng /\ lr_add_point rng 1 = Some r.
+Proof.
+  unfold rule5g, rule5. destruct (loop_of e2) as [[y rng]|]; [|discriminate].
+  destruct (re_eqb e1 y); [|discriminate]. intros H. exists rng. auto.
+Qed.
+Lemma rule5g_none e1 e2 : rule5g e1 e2 = None ->
+  rule5 e1 e2 = None \/ exists rng, rule5 e1 e2 = Some rng /\ lr_add_point rng 1 = None.
+Proof.
+  unfold rule5g, rule5. destruct (loop_of e2) as [[y rng]|]; [|auto].
+  destruct (re_eqb e1 y); [|auto]. intros H. right. exists rng. auto.
+Qed.
+Lemma rule7g_some e1 e2 x r : rule7g e1 e2 = Some (x, r) ->
+  exists xr yr, rule7 e1 e2 = Some (x, xr, yr) /\ lr_add xr yr = Some r.
+Proof.
+  unfold rule7g, rule7. destruct (loop_of e1) as [[x1 xr]|]; [|discriminate].
+  destruct (loop_of e2) as [[y yr]|]; [|discriminate]. destruct (re_eqb x1 y); [|discriminate].
+  destruct (lr_add xr yr) as [r0|] eqn:A; [|discriminate]. intros H. inversion H; subst.
+  exists xr, yr. auto.
+Qed.
+Lemma rule7g_none e1 e2 : rule7g e1 e2 = None ->
+  rule7 e1 e2 = None \/ exists x xr yr, rule7 e1 e2 = Some (x, xr, yr) /\ lr_add xr yr = None.
+Proof.
+  unfold rule7g, rule7. destruct (loop_of e1) as [[x1 xr]|]; [|auto].
+  destruct (loop_of e2) as [[y yr]|]; [|auto]. destruct (re_eqb x1 y); [|auto].
+  destruct (lr_add xr yr) as [r0|] eqn:A; [discriminate|]. intros _. right. exists x1, xr, yr. auto.
+Qed.
 
 Lemma concat_unfold e1 m e2 :
   concat e1 m e2 =
@@ -508,26 +552,26 @@ Proof.
     rewrite <- (l_concat_eps_r (L t) w) at 1.
     apply l_concat_equiv; [apply l_equiv_refl|]. intros u. symmetry. apply (L_rnode e2 _ u K). }
   unfold concat_rules in H.
-  destruct (rule5 e1 e2) as [rng|] eqn:R5.
+  destruct (rule5g e1 e2) as [r|] eqn:G5.
   { (* R . R^[i,j] *)
+    apply rule5g_some in G5 as (rng & R5 & A).
     destruct (rule5_spec m e1 e2 rng W O1 O2 R5) as [Hv HL].
-    destruct (lr_add_point rng 1) as [r|] eqn:A; cbn [bind] in H; [|discriminate].
     destruct (cp_add_point rng r Hv A) as [Hvr Hr].
     apply loop_node_ok in H; auto. eapply post_weaken; [exact H|].
     apply lang_eq_of_equiv. intros w. rewrite (l_loop_succ_l (L e1) rng r Hr w).
     apply l_concat_equiv; [apply l_equiv_refl|]. intros u. symmetry. apply HL. }
-  destruct (rule5 e2 e1) as [rng|] eqn:R6.
+  destruct (rule5g e2 e1) as [r|] eqn:G6.
   { (* R^[i,j] . R *)
+    apply rule5g_some in G6 as (rng & R6 & A).
     destruct (rule5_spec m e2 e1 rng W O2 O1 R6) as [Hv HL].
-    destruct (lr_add_point rng 1) as [r|] eqn:A; cbn [bind] in H; [|discriminate].
     destruct (cp_add_point rng r Hv A) as [Hvr Hr].
     apply loop_node_ok in H; auto. eapply post_weaken; [exact H|].
     apply lang_eq_of_equiv. intros w. rewrite (l_loop_succ_r (L e2) rng r Hr w).
     apply l_concat_equiv; [|apply l_equiv_refl]. intros u. symmetry. apply HL. }
-  destruct (rule7 e1 e2) as [[[x xr] yr]|] eqn:R7.
+  destruct (rule7g e1 e2) as [[x r]|] eqn:G7.
   { (* R^[a,b] . R^[c,d] *)
+    apply rule7g_some in G7 as (xr & yr & R7 & A).
     destruct (rule7_spec m e1 e2 x xr yr W O1 O2 R7) as (Hx & Hv1 & Hv2 & HL1 & HL2).
-    destruct (lr_add xr yr) as [r|] eqn:A; cbn [bind] in H; [|discriminate].
     destruct (cp_add_sum xr yr r Hv1 Hv2 A) as [Hvr Hr].
     apply loop_node_ok in H; auto. eapply post_weaken; [exact H|].
     apply lang_eq_of_equiv. intros w. rewrite (l_loop_concat (L x) xr yr r Hr w).
@@ -570,12 +614,177 @@ Theorem concat_lang e1 m e2 m' t :
   lang_eq (L t) (l_concat (L e1) (L e2)).
 Proof. intros W O1 O2 H. destruct (concat_ok e1 m e2 m' t W O1 O2 H) as (?&?&?&?). auto. Qed.
 
-(* concat panics only when a loop-range addition overflows u32 *)
+(* D11 repaired: concat never panics, from any manager and on any two terms: a loop-merging rule
+   whose new bounds do not fit in u32 does not apply and the match falls through. *)
+Theorem concat_total_any : forall e1 m e2, exists m' t, concat e1 m e2 = Some (m', t).
+Proof.
+  induction e1 as [e1 IH] using re_induction. intros m e2.
+  rewrite concat_unfold.
+  destruct (is_empty_node e1); [eexists; eexists; reflexivity|].
+  destruct (is_empty_node e2); [eexists; eexists; reflexivity|].
+  destruct (is_eps_node e1); [eexists; eexists; reflexivity|].
+  destruct (is_eps_node e2); [eexists; eexists; reflexivity|].
+  unfold concat_rules.
+  destruct (rule5g e1 e2) as [r|]; [apply make_nc_total; exact I|].
+  destruct (rule5g e2 e1) as [r|]; [apply make_nc_total; exact I|].
+  destruct (rule7g e1 e2) as [[x r]|]; [apply make_nc_total; exact I|].
+  destruct (re_eqb e1 e2); [apply make_nc_total; exact I|].
+  destruct (rnode e1) as [| |s|x y|x xr|x|l|l] eqn:K.
+  4: { destruct (IH y (or_intror (or_introl eq_refl)) m e2) as (m1 & rt & C1). rewrite C1. cbn [bind].
+       apply (IH x (or_introl eq_refl)). }
+  all: destruct (rnul e1 && re_eqb e2 (m_full m)); [eexists; eexists; reflexivity|];
+    apply make_nc_total; exact I.
+Qed.
+Theorem concat_total e1 m e2 :
+  wf m -> owned m e1 -> owned m e2 -> exists m' t, concat e1 m e2 = Some (m', t).
+Proof. intros _ _ _. apply concat_total_any. Qed.
+Theorem concat_none e1 m e2 : concat e1 m e2 <> None.
+Proof. destruct (concat_total_any e1 m e2) as (m' & t & E). congruence. Qed.
+
+(* the merged loop is NOT built exactly when the merged bounds leave u32 (the pre-repair code
+   panicked there); the rule then falls through *)
 Definition add_overflow (e1 e2 : re) : Prop :=
   (exists rng, (rule5 e1 e2 = Some rng \/ rule5 e2 e1 = Some rng) /\ lr_add_point rng 1 = None) \/
   (exists x xr yr, rule7 e1 e2 = Some (x, xr, yr) /\ lr_add xr yr = None).
 
-Theorem concat_none : forall e1 m e2, wf m -> owned m e1 -> owned m e2 -> concat e1 m e2 = None ->
+(* ------------------------------------------------------------------------------------------ *)
+(** * The pre-repair constructors (defect D11), kept only to state what the repair changed
+
+   [concat_prefix] / [mk_loop_prefix] are ReManager::concat / mk_loop as they were before the repair:
+   the loop-merging rules 5, 6, 7 and the loop-of-loop flattening used the panicking u32 arithmetic
+   of LoopRange (None = panic).  The repair changes nothing wherever the old code returned. *)
+
+Fixpoint concat_prefix (e1 : re) (m : mgr) (e2 : re) {struct e1} : option (mgr * re) :=
+  match e1 with
+  | Node _ _ _ k1 =>
+    match k1, rnode e2 with
+    | NEmpty, _ => Some (m, m_empty m)
+    | _, NEmpty => Some (m, m_empty m)
+    | NEps, _ => Some (m, e2)
+    | _, NEps => Some (m, e1)
+    | _, _ =>
+      match (match loop_of e2 with Some (y, rng) => if re_eqb e1 y then Some rng else None | None => None end) with
+      | Some rng => do r <- lr_add_point rng 1; (make m (NLoop e1 r))
+      | None =>
+        match (match loop_of e1 with Some (x, rng) => if re_eqb e2 x then Some rng else None | None => None end) with
+        | Some rng => do r <- lr_add_point rng 1; (make m (NLoop e2 r))
+        | None =>
+          match (match loop_of e1, loop_of e2 with
+                 | Some (x, xr), Some (y, yr) => if re_eqb x y then Some (x, xr, yr) else None
+                 | _, _ => None end) with
+          | Some (x, xr, yr) => do r <- lr_add xr yr; (make m (NLoop x r))
+          | None =>
+            if re_eqb e1 e2 then (make m (NLoop e1 (lr_point 2)))
+            else match k1 with
+                 | NConcat x y =>
+                     do (m1, rt) <- concat_prefix y m e2; concat_prefix x m1 rt
+                 | _ =>
+                     if rnul e1 && re_eqb e2 (m_full m) then Some (m, e2)
+                     else (make m (NConcat e1 e2))
+                 end
+          end
+        end
+      end
+    end
+  end.
+Definition mk_loop_prefix (m : mgr) (e : re) (range : lr) : option (mgr * re) :=
+  if lr_is_zero range then Some (m, m_eps m)
+  else if lr_is_one range then Some (m, e)
+  else match rnode e with
+       | NEmpty => Some (m, if lr_start range =? 0 then m_eps m else m_empty m)
+       | NEps => Some (m, m_eps m)
+       | NLoop x xr =>
+           do ex <- lr_rmie xr range;
+           if ex then (do r <- lr_mul xr range; (make m (NLoop x r)))
+           else (make m (NLoop e range))
+       | _ => (make m (NLoop e range))
+       end.
+
+Definition concat_prefix_rules (e1 : re) (m : mgr) (e2 : re) : option (mgr * re) :=
+  match rule5 e1 e2 with
+  | Some rng => do r <- lr_add_point rng 1; (make m (NLoop e1 r))
+  | None =>
+    match rule5 e2 e1 with
+    | Some rng => do r <- lr_add_point rng 1; (make m (NLoop e2 r))
+    | None =>
+      match rule7 e1 e2 with
+      | Some (x, xr, yr) => do r <- lr_add xr yr; (make m (NLoop x r))
+      | None =>
+        if re_eqb e1 e2 then (make m (NLoop e1 (lr_point 2)))
+        else match rnode e1 with
+             | NConcat x y => do (m1, rt) <- concat_prefix y m e2; concat_prefix x m1 rt
+             | _ => if rnul e1 && re_eqb e2 (m_full m) then Some (m, e2)
+                    else (make m (NConcat e1 e2))
+             end
+      end
+    end
+  end.
+Lemma concat_prefix_unfold e1 m e2 :
+  concat_prefix e1 m e2 =
+  if is_empty_node e1 then Some (m, m_empty m)
+  else if is_empty_node e2 then Some (m, m_empty m)
+  else if is_eps_node e1 then Some (m, e2)
+  else if is_eps_node e2 then Some (m, e1)
+  else concat_prefix_rules e1 m e2.
+Proof.
+  destruct e1 as [i n c k1]; destruct e2 as [j n2 c2 k2]; destruct k1; destruct k2; reflexivity.
+Qed.
+
+Lemma rule5g_eq e1 e2 :
+  rule5g e1 e2 = match rule5 e1 e2 with Some rng => lr_add_point rng 1 | None => None end.
+Proof. unfold rule5g, rule5. destruct (loop_of e2) as [[y rng]|]; [|reflexivity]. destruct (re_eqb e1 y); reflexivity. Qed.
+Lemma rule7g_eq e1 e2 :
+  rule7g e1 e2 = match rule7 e1 e2 with
+                 | Some (x, xr, yr) => match lr_add xr yr with Some r => Some (x, r) | None => None end
+                 | None => None
+                 end.
+Proof.
+  unfold rule7g, rule7. destruct (loop_of e1) as [[x xr]|]; [|reflexivity].
+  destruct (loop_of e2) as [[y yr]|]; [|reflexivity]. destruct (re_eqb x y); reflexivity.
+Qed.
+
+(* wherever the pre-repair concat returned, the repaired concat returns the same manager and term *)
+Theorem concat_prefix_agrees : forall e1 m e2 r, concat_prefix e1 m e2 = Some r -> concat e1 m e2 = Some r.
+Proof.
+  induction e1 as [e1 IH] using re_induction. intros m e2 r H.
+  rewrite concat_prefix_unfold in H. rewrite concat_unfold.
+  destruct (is_empty_node e1); [exact H|]. destruct (is_empty_node e2); [exact H|].
+  destruct (is_eps_node e1); [exact H|]. destruct (is_eps_node e2); [exact H|].
+  unfold concat_prefix_rules in H. unfold concat_rules.
+  rewrite (rule5g_eq e1 e2), (rule5g_eq e2 e1), (rule7g_eq e1 e2).
+  destruct (rule5 e1 e2) as [rng|].
+  { destruct (lr_add_point rng 1) as [r0|]; cbn [bind] in H; [exact H | discriminate]. }
+  destruct (rule5 e2 e1) as [rng|].
+  { destruct (lr_add_point rng 1) as [r0|]; cbn [bind] in H; [exact H | discriminate]. }
+  destruct (rule7 e1 e2) as [[[x xr] yr]|].
+  { destruct (lr_add xr yr) as [r0|]; cbn [bind] in H; [exact H | discriminate]. }
+  destruct (re_eqb e1 e2); [exact H|].
+  destruct (rnode e1) as [| |s|x y|x xr|x|l|l] eqn:K; try exact H.
+  destruct (concat_prefix y m e2) as [[m1 rt]|] eqn:C1; cbn [bind] in H; [|discriminate].
+  rewrite (IH y (or_intror (or_introl eq_refl)) m e2 (m1, rt) C1). cbn [bind].
+  apply (IH x (or_introl eq_refl)). exact H.
+Qed.
+Theorem mk_loop_prefix_agrees m e range r : mk_loop_prefix m e range = Some r -> mk_loop m e range = Some r.
+Proof.
+  unfold mk_loop_prefix, mk_loop. destruct (lr_is_zero range); [auto|]. destruct (lr_is_one range); [auto|].
+  destruct (rnode e) as [| |s|a b|x xr|a|l|l]; auto.
+  destruct (lr_rmie xr range) as [[|]|]; cbn [bind]; try discriminate; auto.
+  destruct (lr_mul xr range) as [r0|]; cbn [bind]; [auto | discriminate].
+Qed.
+(* the pre-repair concat panicked exactly where some loop-range addition on the way overflowed: see
+   [add_overflow]; the repaired one returns there too (concat_total_any) *)
+Theorem concat_repair e1 m e2 :
+  (exists r, concat_prefix e1 m e2 = Some r /\ concat e1 m e2 = Some r) \/
+  (concat_prefix e1 m e2 = None /\ exists r, concat e1 m e2 = Some r).
+Proof.
+  destruct (concat_prefix e1 m e2) as [r|] eqn:E.
+  - left. exists r. split; [reflexivity | apply concat_prefix_agrees; exact E].
+  - right. split; [reflexivity|]. destruct (concat_total_any e1 m e2) as (m' & t & C). eauto.
+Qed.
+
+(* the pre-repair concat panicked only when an addition of loop bounds overflowed u32 (this was
+   theorem concat_none before the repair) *)
+Theorem concat_prefix_none : forall e1 m e2, wf m -> owned m e1 -> owned m e2 -> concat_prefix e1 m e2 = None ->
   exists a m1 b, wf m1 /\ ext m m1 /\ owned m1 a /\ owned m1 b /\ add_overflow a b.
 Proof.
   induction e1 as [e1 IH] using re_induction. intros m e2 W O1 O2 H.
@@ -584,10 +793,10 @@ Proof.
   assert (Hhere : add_overflow e1 e2 ->
             exists a m1 b, wf m1 /\ ext m m1 /\ owned m1 a /\ owned m1 b /\ add_overflow a b).
   { intros Hov. exists e1, m, e2. split; [exact W|]. split; [apply ext_refl|]. auto. }
-  rewrite concat_unfold in H.
+  rewrite concat_prefix_unfold in H.
   destruct (is_empty_node e1); [discriminate|]. destruct (is_empty_node e2); [discriminate|].
   destruct (is_eps_node e1); [discriminate|]. destruct (is_eps_node e2); [discriminate|].
-  unfold concat_rules in H.
+  unfold concat_prefix_rules in H.
   destruct (rule5 e1 e2) as [rng|] eqn:R5.
   { destruct (lr_add_point rng 1) as [r|] eqn:A; cbn [bind] in H; [exfalso; apply (Hmk (NLoop e1 r) I H)|].
     apply Hhere. left. exists rng. auto. }
@@ -601,8 +810,8 @@ Proof.
   destruct (rnode e1) as [| |s|x y|x xr|x|l|l] eqn:K.
   4: { destruct (wf_child m W e1 x O1) as [Ox _]; [rewrite K; cbn; auto|].
        destruct (wf_child m W e1 y O1) as [Oy _]; [rewrite K; cbn; auto|].
-       destruct (concat y m e2) as [[m1 rt]|] eqn:C1; cbn [bind] in H.
-       - destruct (concat_ok y m e2 m1 rt W Oy O2 C1) as (W1 & X1 & Ort & _).
+       destruct (concat_prefix y m e2) as [[m1 rt]|] eqn:C1; cbn [bind] in H.
+       - destruct (concat_ok y m e2 m1 rt W Oy O2 (concat_prefix_agrees y m e2 _ C1)) as (W1 & X1 & Ort & _).
          destruct (IH x (or_introl eq_refl) m1 rt W1 (ext_owned m m1 x X1 Ox) Ort H)
            as (a & m2 & b & W2 & X2 & Hrest).
          exists a, m2, b. split; [exact W2|]. split; [eapply ext_trans; eauto | exact Hrest].
@@ -1301,97 +1510,26 @@ Proof.
 Qed.
 
 (* ------------------------------------------------------------------------------------------ *)
-(** * str never panics on an SMT string of fewer than 2^32 characters *)
+(** * str never panics on a good SMT string (of any length, since concat is total: D11 repaired) *)
 
-(* shape of the accumulator of ReManager::str after k characters *)
-Definition str_inv (k : nat) (acc : re) : Prop :=
-  match rnode acc with
-  | NEps | NConcat _ _ => True
-  | NRange _ => (1 <= k)%nat
-  | NLoop _ r => exists j, r = LR j (Some j) /\ j <= N.of_nat k
-  | _ => False
-  end.
-
-Lemma concat_char_step m ch acc k s :
-  wf m -> owned m ch -> owned m acc -> rnode ch = NRange s -> str_inv k acc ->
-  N.of_nat k < U32MAX ->
-  exists m' t, concat ch m acc = Some (m', t) /\ str_inv (S k) t.
+Lemma str_go_total : forall rw m acc,
+  wf m -> owned m acc -> goodw rw -> exists m' t, str_go m rw acc = Some (m', t).
 Proof.
-  intros W Och Oacc Kc Hinv Hk.
-  assert (Hmk : forall k0, not_compl k0 -> k_closed m k0 -> node_ok k0 ->
-            exists m' t, make m k0 = Some (m', t) /\ rnode t = k0).
-  { intros k0 H1 H2 H3. destruct (make_total m k0 W H1) as (m' & t & E). exists m', t. split; auto.
-    eapply make_wf; eauto. }
-  rewrite concat_unfold.
-  unfold is_empty_node at 1. rewrite Kc.
-  unfold is_empty_node. destruct (rnode acc) as [| |s2|x y|x xr|x|l|l] eqn:Ka;
-    unfold str_inv in Hinv; rewrite Ka in Hinv; try contradiction;
-    unfold is_eps_node; rewrite Kc, ?Ka.
-  - (* acc = epsilon *) exists m, ch. split; auto. unfold str_inv. rewrite Kc. lia.
-  - (* acc = a character *)
-    unfold concat_rules, rule5, rule7, loop_of. rewrite Kc, ?Ka.
-    destruct (re_eqb ch acc) eqn:Q.
-    + destruct (Hmk (NLoop ch (lr_point 2))) as (m' & t & E & Kt); [exact I | intros c [<-|[]]; auto | |].
-      { unfold node_ok, lr_valid, lr_point, U32MAX. lia. }
-      exists m', t. split; auto. unfold str_inv. rewrite Kt. exists 2. split; [reflexivity | lia].
-    + assert (Hn : rnul ch = false).
-      { pose proof (wf_terms m W ch Och) as Hw. apply wf_term_iff in Hw as (Hn & _). rewrite Hn, Kc. reflexivity. }
-      rewrite Hn. cbn [andb].
-      destruct (Hmk (NConcat ch acc)) as (m' & t & E & Kt); [exact I | intros c [<-|[<-|[]]]; auto | exact I |].
-      exists m', t. split; auto. unfold str_inv. rewrite Kt. exact I.
-  - (* acc = a concatenation *)
-    unfold concat_rules, rule5, rule7, loop_of. rewrite Kc, ?Ka.
-    destruct (re_eqb ch acc) eqn:Q.
-    { apply (re_eqb_owned m ch acc Och Oacc) in Q. subst acc. congruence. }
-    assert (Hn : rnul ch = false).
-    { pose proof (wf_terms m W ch Och) as Hw. apply wf_term_iff in Hw as (Hn & _). rewrite Hn, Kc. reflexivity. }
-    rewrite Hn. cbn [andb].
-    destruct (Hmk (NConcat ch acc)) as (m' & t & E & Kt); [exact I | intros c [<-|[<-|[]]]; auto | exact I |].
-    exists m', t. split; auto. unfold str_inv. rewrite Kt. exact I.
-  - (* acc = x^[j,j] *)
-    destruct Hinv as (j & -> & Hj).
-    unfold concat_rules, rule5 at 1, loop_of. rewrite Ka.
-    destruct (re_eqb ch x) eqn:Q.
-    + unfold lr_add_point, lr_add, lr_point, lr_start, add32.
-      destruct (N.leb_spec (j + 1) U32MAX); [|lia]. cbn [bind].
-      destruct (Hmk (NLoop ch (LR (j + 1) (Some (j + 1))))) as (m' & t & E & Kt);
-        [exact I | intros c [<-|[]]; auto | unfold node_ok, lr_valid; lia |].
-      exists m', t. split; auto. unfold str_inv. rewrite Kt. exists (j + 1). split; [reflexivity | lia].
-    + unfold rule5, rule7, loop_of. rewrite Kc, ?Ka.
-      destruct (re_eqb ch acc) eqn:Q2.
-      { apply (re_eqb_owned m ch acc Och Oacc) in Q2. subst acc. congruence. }
-      assert (Hn : rnul ch = false).
-      { pose proof (wf_terms m W ch Och) as Hw. apply wf_term_iff in Hw as (Hn & _). rewrite Hn, Kc. reflexivity. }
-      rewrite Hn. cbn [andb].
-      destruct (Hmk (NConcat ch acc)) as (m' & t & E & Kt); [exact I | intros c [<-|[<-|[]]]; auto | exact I |].
-      exists m', t. split; auto. unfold str_inv. rewrite Kt. exact I.
-Qed.
-
-Lemma str_go_total : forall rw m acc k,
-  wf m -> owned m acc -> goodw rw -> str_inv k acc -> N.of_nat (k + length rw) <= U32MAX ->
-  exists m' t, str_go m rw acc = Some (m', t).
-Proof.
-  induction rw as [|c rw IH]; intros m acc k W Ho Hg Hinv Hlen; cbn [str_go]; [eauto|].
-  inversion Hg as [|? ? Hc Hg']; subst. cbn [length] in Hlen.
+  induction rw as [|c rw IH]; intros m acc W Ho Hg; cbn [str_go]; [eauto|].
+  inversion Hg as [|? ? Hc Hg']; subst.
   destruct (mchar_total m c W Hc) as (m1 & ch & C). rewrite C. cbn [bind].
   destruct (mchar_ok m c m1 ch W C) as (_ & W1 & X1 & Och & _).
-  assert (Kc : rnode ch = NRange (c, c)).
-  { unfold mchar, range in C. destruct ((c <=? c) && (c <=? MAXC)); [|discriminate].
-    unfold char_set in C. apply (make_wf m (NRange (c, c)) m1 ch W I) in C; [tauto | intros z [] |].
-    unfold node_ok, cs_valid. cbn [fst snd]. unfold good in Hc. lia. }
-  destruct (concat_char_step m1 ch acc k (c, c) W1 Och (ext_owned m m1 acc X1 Ho) Kc Hinv)
-    as (m2 & r & C2 & Hinv2); [lia|].
-  rewrite C2. cbn [bind].
+  destruct (concat_total_any ch m1 acc) as (m2 & r & C2). rewrite C2. cbn [bind].
   destruct (concat_ok ch m1 acc m2 r W1 Och (ext_owned m m1 acc X1 Ho) C2) as (W2 & X2 & Or & _).
-  apply (IH m2 r (S k)); auto. lia.
+  apply (IH m2 r); auto.
 Qed.
 
-Theorem mstr_total m w :
-  wf m -> goodw w -> N.of_nat (length w) <= U32MAX -> exists m' t, mstr m w = Some (m', t).
+Theorem mstr_total_any m w : wf m -> goodw w -> exists m' t, mstr m w = Some (m', t).
 Proof.
-  intros W Hg Hlen. unfold mstr. apply (str_go_total (rev w) m (m_eps m) O); auto.
+  intros W Hg. unfold mstr. apply (str_go_total (rev w) m (m_eps m)); auto.
   - apply (c_eps_o m (wf_consts m W)).
   - unfold goodw in *. rewrite Forall_forall in *. intros x Hx. apply Hg. apply in_rev. exact Hx.
-  - unfold str_inv. rewrite (c_eps m (wf_consts m W)). exact I.
-  - rewrite rev_length. exact Hlen.
 Qed.
+Theorem mstr_total m w :
+  wf m -> goodw w -> N.of_nat (length w) <= U32MAX -> exists m' t, mstr m w = Some (m', t).
+Proof. intros W Hg _. apply mstr_total_any; assumption. Qed.
